@@ -19,11 +19,29 @@ RULE = ("case = small linear model + entry (solve/min/max/enumstats/enum) + chec
         "limit checks) compared exactly with the extracted model and judged against the brute-force solution set: Ok => correct "
         "(optimal for min/max), nosol => really unsatisfiable, sols => genuine and distinct, never a panic; non-trivial = a limit fired")
 
+def witness_holds(case):
+    parts = [p.strip() for p in case.split(";")]
+    doms = parts[0].split("|")
+    n = len(doms)
+    if n < 4 or any(d.strip() != "0..2" for d in doms[-3:]) or any(d.strip() != "0..1" for d in doms[:-3]): return False
+    a = [0] * n; a[0] = 1; a[-3:] = [0, 1, 2]
+    for p in parts[1:]:
+        t = p.split()
+        if t[0] not in ("lineq", "linle", "linne"): continue
+        cs = [int(x) for x in t[1].split(",")]; xs = [int(x[1:]) for x in t[2].split(",")]; k = int(t[3])
+        v = sum(c * a[x] for c, x in zip(cs, xs))
+        if (t[0] == "lineq" and v != k) or (t[0] == "linle" and v > k) or (t[0] == "linne" and v == k): return False
+    return True
+
 def judge(case, impl, spec):
     if impl.startswith("PANIC") or impl.startswith("CRASH") or impl.startswith("HANG"):
         return "implementation panicked: " + impl
     out = impl.rsplit(" checks=", 1)[0]
-    if spec.strip() == "skip":      # search space too large for the brute-force oracle: correspondence only
+    if spec.strip() == "skip":      # search space too large for the brute-force oracle
+        # the thrashing-below-a-deep-stack cases are satisfiable BY CONSTRUCTION: the witness x0 = 1, every other 0/1
+        # variable 0, the last three variables 0,1,2 is checked here against every posted row (exact integer evaluation)
+        if out == "nosol" and witness_holds(case):
+            return "no-solution verdict for a satisfiable model (witness: x0 = 1, other 0/1 variables 0, last three 0,1,2)"
         return None
     allsols = plevel.parse_sols(spec[len("all "):])
     allset = set(allsols)
@@ -73,6 +91,17 @@ def gen_deep(tier, rng):
         for entry in ["solve", "enumstats"]:
             for iv in [1, 3]:
                 cases.append(" ; ".join([doms, "linle 1,1 x0,x1 2", entry, "iv %d" % iv, "mem 1"]))
+    # thrashing BELOW a deep stack: nv free 0/1 variables, then three variables 0..2, pairwise different, each <= 1 + x0:
+    # satisfiable only with x0 = 1.  Depth-first search sets x0 = 0 first, stacks nv choice points, fails in the block and
+    # pops: the periodic check then runs with > 512 frames on the stack and the in-search memory limit (1 MB) fires.
+    # The answer must be MemoryLimit (or a correct result), never a no-solution verdict (seeded change C15c).
+    for nv in ([520, 600] if tier == "quick" else [513, 520, 560, 600, 700]):
+        doms = "|".join(["0..1"] * nv + ["0..2"] * 3)
+        h = ["x%d" % (nv + i) for i in range(3)]
+        posts = ["linne 1,-1 %s,%s 0" % (h[i], h[j]) for i in range(3) for j in range(i + 1, 3)] + ["linle 1,-1 %s,x0 1" % hi for hi in h]
+        for entry in ["solve", "min %s" % h[0], "max x1", "enumstats"]:
+            for iv in ([1, 7] if tier == "quick" else [1, 2, 7, 50]):
+                cases.append(" ; ".join([doms] + posts + [entry, "iv %d" % iv, "mem 1"]))
     return cases
 
 nontrivial = lambda case, impl: impl.startswith("timeout") or impl.startswith("memory") or ("tfire" in case and "checks=0" not in impl)
